@@ -91,7 +91,22 @@ int main(int argc, char* argv[])
     config.m_max_dims   = 16;
     config.m_summands   = 20;
     config.m_smoothness = smoothness::yes;
-    const auto functions = function_t::make(config);
+    auto functions = function_t::make(config);
+    // (function_t::make only instantiates dims 1, 2, 3, 4, 8, 16: add the other dimensions)
+    for (const auto& fid : function_t::all().ids())
+    {
+        try
+        {
+            auto f = function_t::all().get(fid)->make(rng.range(1, 16), rng.range(5, 40));
+            if (f && f->smooth())
+            {
+                functions.push_back(std::move(f));
+            }
+        }
+        catch (const std::exception&)
+        {
+        }
+    }
     const auto ids       = lsearchk_t::all().ids();
     constexpr auto eps   = std::numeric_limits<double>::epsilon();
 
@@ -104,8 +119,8 @@ int main(int argc, char* argv[])
         double      c1 = 1e-4, c2 = 0.1;
         if (!(quadratic && rng.coin(2, 3)))
         {
-            c1 = std::pow(10.0, rng.uniform(-8.0, -0.4));
-            c2 = c1 + (1.0 - c1) * rng.uniform(0.02, 0.98);
+            c1 = rng.coin(1, 6) ? rng.uniform(0.4, 0.99) : std::pow(10.0, rng.uniform(-8.0, -0.4));
+            c2 = c1 + (1.0 - c1) * (rng.coin(1, 6) ? rng.pick(std::vector<double>{1e-3, 0.999}) : rng.uniform(0.02, 0.98));
             ls->parameter("lsearchk::tolerance") = std::make_tuple(c1, c2);
             defaults = false;
             if (shake(*ls, rng))
@@ -173,7 +188,7 @@ int main(int argc, char* argv[])
         d.vector() *= std::pow(10.0, rng.uniform(-2.0, 2.0));
         const auto dg0     = state.gx().dot(d);
         const auto descent = dg0 < 0.0;
-        const auto t0      = rng.coin(1, 10) ? (rng.coin() ? std::nan("") : HUGE_VAL) : std::pow(10.0, rng.uniform(-3.0, 3.0));
+        const auto t0      = rng.coin(1, 10) ? rng.pick(std::vector<double>{std::nan(""), HUGE_VAL, -HUGE_VAL, 0.0, -1.0}) : std::pow(10.0, rng.uniform(-3.0, 3.0));
         const auto defaults_run = defaults && kind <= 6 && std::isfinite(t0) && t0 <= 10.0 && t0 >= 1e-2;
 
         vt::put(vt::J("Search").i("case", icase).s("algo", id).b("descent", descent).b("quadratic", quadratic).b("defaults", defaults_run).s(
